@@ -8,6 +8,7 @@
   write lands at its own offset.  The programs the theorem is applied to are extracted from pyctr on every run (DESIGN §C15).
 -/
 import Proofs.SchedProofs
+import Proofs.SchedProgress
 namespace Pyctr.C15
 open Pyctr Pyctr.Sched
 
@@ -31,6 +32,34 @@ theorem C15_all_schedules (guard : Nat → Nat) (progs : List (List Ev)) (pos : 
     (h : ∀ p, p ∈ progs → disciplined guard p.length ⟨[], [], p⟩ = true) (sched : List (Nat × Nat)) :
     RunOwn guard (initSt progs pos) sched :=
   run_own guard sched _ (init_inv guard progs pos h)
+
+/-- **no deadlock**: if, in addition, every thread takes its locks in the order of one ranking of the locks (checked on each
+    program alone) and ends with nothing held, then after any schedule either every thread has finished or some thread can
+    take a step -/
+theorem C15_no_deadlock (guard rank : Nat → Nat) (progs : List (List Ev)) (pos : Nat → Nat)
+    (hd : ∀ p, p ∈ progs → disciplined guard p.length ⟨[], [], p⟩ = true)
+    (ho : ∀ p, p ∈ progs → ordered guard rank p.length ⟨[], [], p⟩ = true) (sched : List (Nat × Nat)) :
+    (∀ (t : Nat) (c : TCfg), (run guard (initSt progs pos) sched).1.ths[t]? = some c → c.todo = []) ∨
+      ∃ t k r, step guard (run guard (initSt progs pos) sched).1 t k = some r := by
+  have h1 := run_inv guard sched _ (init_inv guard progs pos hd)
+  have h2 := run_ordInv guard rank sched _ (init_ordInv guard rank progs pos ho)
+  by_cases hall : ∀ (t : Nat) (c : TCfg), (run guard (initSt progs pos) sched).1.ths[t]? = some c → c.todo = []
+  · left; exact hall
+  · right
+    have : ∃ (t : Nat) (c : TCfg), (run guard (initSt progs pos) sched).1.ths[t]? = some c ∧ c.todo ≠ [] := by
+      apply Classical.byContradiction
+      intro hc
+      apply hall
+      intro t c htc
+      apply Classical.byContradiction
+      intro hne
+      exact hc ⟨t, c, htc, hne⟩
+    obtain ⟨t, c, htc, hne⟩ := this
+    exact progress guard rank _ h1 h2 t c htc hne
+
+/-! non-vacuity: nested locks taken in rank order are ordered; the opposite nesting is not -/
+example : ordered (fun _ => 7) (fun l => l) 6 ⟨[], [], [.acq 3, .acq 7, .seek 0 5, .use 0, .rel 7, .rel 3]⟩ = true := by decide
+example : ordered (fun _ => 7) (fun l => l) 4 ⟨[], [], [.acq 7, .acq 3, .rel 3, .rel 7]⟩ = false := by decide
 
 /-! non-vacuity: two windows on one file, each doing lock / seek / read / unlock, are disciplined;
     the same without the lock is not -/
